@@ -333,7 +333,8 @@ def gen_case(seed, tier):
     return {'kind': 'prog', 'body': top, 'subs': subs, 'script': g.script,
             'mode': r.choice(['top', 'top', 'sub']),
             'pair_seed': r.randint(0, 10 ** 9), 'plans': None,
-            'quiet': quiet}
+            'quiet': quiet,
+            'restricted': core.stream(seed, 'c14sec').random() < 0.25}
 
 
 # ------------------------------------------------------------------ runner
@@ -364,10 +365,38 @@ class Env14(E.RunEnv):
                 self.log[n].note = self.pending_note
 
 
+_RCLS = []
+
+
+def restricted_class():
+    """HTML with the package's own security mix-in, run inside a security
+    context - the way every through-the-web DTML object is run (same set-up
+    as the package's tests/testSecurity.py)"""
+    if not _RCLS:
+        from AccessControl.SecurityManagement import getSecurityManager
+        from DocumentTemplate import HTML
+        from DocumentTemplate.security import RestrictedDTML
+
+        class RestrictedHTML(RestrictedDTML, HTML):
+            def getOwner(self):
+                return None
+
+            def __call__(self, client=None, REQUEST={}, RESPONSE=None, **kw):
+                security = getSecurityManager()
+                security.addContext(self)
+                try:
+                    return HTML.__call__(self, client, REQUEST, **kw)
+                finally:
+                    security.removeContext(self)
+        _RCLS.append(RestrictedHTML)
+    return _RCLS[0]
+
+
 def prepare(case):
     from DocumentTemplate import HTML
     src = E.body_src(case['body'])
-    top = HTML(src)
+    top = (restricted_class() if case.get('restricted') and
+           case.get('mode') != 'sub' else HTML)(src)
     subs = {}
     names = list(E.all_sites(case['body']))
     for name, spec in sorted(case['subs'].items()):
